@@ -85,6 +85,7 @@ struct Blk {
   uint8_t* p = nullptr; size_t n = 0, u = 0, a = 1, o = 0; int home = 0; bool zmode = false; uint32_t key = 0; bool live = false; int tag = 0;
   size_t written = 0;    // prefix holding the pattern
   bool foreign = false;  // allocated by a helper thread
+  bool pristine = true;   // requested size unchanged since allocation (padding canary sits right after it)
   bool stranded = false; // page was abandoned by mi_heap_delete of an incompatible heap inside a still-owned segment (known finding F5)
 };
 struct Hp { mi_heap_t* h = nullptr; bool alive = false; int kind = 0 /*0 backing,1 new,2 arena,3 tag*/; int tag = 0; int arena = -1; bool destroyable = false; bool pending_remote = false; };
@@ -122,6 +123,11 @@ struct Exec {
   std::vector<Watch> watches; long purge_calls_seen = 0; long opt_purge_delay = 10, opt_purge_mult = 10; uintptr_t last_free_near_seg = 0;   // C18
   bool forced_abandon = false;  // target_segments_per_thread >= 2
   bool visit_abandoned_on = false;
+  int expect_err = 0;            // error code the running misuse op is about to provoke (debug build: the case ends when it is delivered)
+  int pending_forge = 0;         // forged links the allocator has not reached yet (their EFAULT may arrive in a later op)
+  bool stop_after_this_op = false;
+  bool walk_unreliable = false; // after a detected free-list corruption the remainder of that list is dropped by design: heap walks are no longer exact
+  bool known_f14_off = false;
   bool known_f12_off = false;
   bool known_f5_off = false;    // replay of the F5 demonstration: do not exclude
   uintptr_t exempt_lo = 0, exempt_hi = 0;   // block being released inside a realloc call (purge police)
@@ -174,7 +180,7 @@ struct Exec {
     if (u < n) fail_now("usable", "op#%ld %s: mi_usable_size(%p)=%zu < requested %zu", opi, what, p, u, n);
     check_disjoint(p, u, s, what);
     check_arena_rules(p, u, home, what);
-    b.p = p; b.n = n; b.u = u; b.a = a; b.o = o; b.home = home; b.zmode = zmode; b.key = m.next_key++; b.live = true; b.foreign = false; b.stranded = false;
+    b.p = p; b.n = n; b.u = u; b.a = a; b.o = o; b.home = home; b.zmode = zmode; b.key = m.next_key++; b.live = true; b.foreign = false; b.stranded = false; b.pristine = true;
     if (m.freed_addrs.count((uintptr_t)p)) flag(F_REUSE);
     if (u > 16*MiB) flag(F_HUGE); else if (u > 64*KiB) flag(F_LARGEPAGE);
     m.live[(uintptr_t)p] = s; m.nlive++;
